@@ -694,6 +694,21 @@ def crash_batch(payload, workdir):
     outs = []
     template = os.path.join(workdir, 'template.sqlite')
     create_file(template)
+    # warm Pony's caches (entity setup, SQL generation) once in this process, on a throw-away file: a forked child then spends its
+    # time on the program only.  The connections are closed again and no session is open when the children are forked.
+    warm = os.path.join(workdir, 'warm.sqlite')
+    shutil.copyfile(template, warm)
+    install_proxy(); CTL.reset()
+    wdb, WT = make_db(warm, prefill=False)
+    run_body(wdb, WT, 'opt', [['select', False, 0], ['load', False, 2], ['loadu', False, 2], ['link', False, [2, 2]], ['new', False, 1], ['rawwrite', False, 2],
+                               ['rawupdate', False, 3], ['commit', False, 0], ['load', False, 1], ['loadu', False, 1], ['unlink', False, [1, 1]], ['flush', False, 0], ['rollback', False, 0]])
+    wdb.disconnect()
+    for w in CTL.cons.values():
+        try: w.real.close()
+        except Exception: pass
+    CTL.reset()
+    import gc
+    gc.collect(); gc.freeze()          # keep the children from copying the whole heap (copy-on-write) in their first collection
     for n, case in enumerate(payload['cases']):
         path = os.path.join(workdir, 'k%d.sqlite' % n)
         for suffix in ('', '-journal', '-wal', '-shm'):
@@ -702,6 +717,7 @@ def crash_batch(payload, workdir):
         pid = os.fork()
         if pid == 0:
             try:
+                gc.disable()
                 crash_child(dict(case, path=path))
                 os._exit(0)
             except BaseException:
